@@ -167,6 +167,22 @@ class Gen:
                 out[o.name] = v
             else:
                 out[o.name] = r.randrange(1 << o.size)
+        if t.options and r.random() < 0.2:
+            # every option at its specified default except ONE (a record that is "all defaults" but for a single bit)
+            def dflt(o):
+                d = o.default
+                if o.enum:
+                    d = dict(o.members)[spec.mangle(d)]
+                return bool(d) if o.size == 1 and o.min is None else d
+            one = r.choice(t.options)
+            for o in t.options:
+                if o is not one and o.name != "user_defined_controllers":
+                    out[o.name] = dflt(o)
+            if one.size == 1 and one.min is None:
+                out[one.name] = not dflt(one)
+                for x in one.exclusive_of:
+                    if out[one.name]:
+                        out[x] = False
         return out
 
     def cmid(self, names):
